@@ -24,7 +24,7 @@ BATCH = 40
 DET = ['emm', 'emm_obj', 'emm_lumped', 'its', 'ck', 'coring', 'coring_obj', 'wt', 'paths', 'sim', 'shift',
        'rename_idx', 'rename_pop', 'unique', 'peq', 'is_ergodic', 'mask', 'eig', 'gauss', 'gauss2d', 'rmean',
        'rownorm', 'mpow', 'swapcols', 'swapcols_f', 'format', 'statetraj', 'peq_big', 'eig_big', 'sim_obj', 'ck_obj',
-       'ck_arr', 'its_arr', 'wt_arr', 'emm_lumped2', 'rewrap', 'rewrap2']
+       'ck_arr', 'its_arr', 'wt_arr', 'emm_lumped2', 'rewrap', 'rewrap2', 'ck_far']
 RND = ['mcmc', 'msm_wt', 'msm_tt', 'msm_paths', 'tmat', 'tmat_neg', 'msm_wt_lumped', 'msm_tt_lumped']
 
 
@@ -215,6 +215,20 @@ def impl(case):
         return s
 
     lag, S, F, tau = case['lag'], shared['S'], shared['F'], case['tau']
+    churn = [0]
+
+    def ck_far():
+        # tmax beyond the total number of frames (the late models are all-zero): between calls, arrays of the sizes the
+        # result uses are filled with other values and released, so values read from unwritten memory would change
+        churn[0] += 1
+        n = sum(len(t) for t in trajs) + 10
+        m = n // lag
+        junk = [np.full(k, 3.0 + churn[0]) for k in (m + 2, m + 1, m, m - 1, 7, 64) if k > 0]
+        junk += [np.full(k, bool(churn[0] % 2)) for k in (m + 2, m + 1, m, m - 1) if k > 0]
+        del junk
+        return {str(k): [v['time'].tolist(), {str(s): c.tolist() for s, c in v['ck'].items()},
+                         np.atleast_1d(v['is_ergodic']).tolist(), np.atleast_1d(v['is_fuzzy_ergodic']).tolist()]
+                for k, v in mh.msm.ck_test(trajs, [lag], n).items()}
     calls = {
         'emm': lambda: mh.msm.estimate_markov_model(trajs, lag),
         'emm_obj': lambda: mh.msm.estimate_markov_model(obj, lag),
@@ -222,6 +236,7 @@ def impl(case):
         'its': lambda: mh.msm.implied_timescales(obj, [lag, lag + 1]),
         'ck': lambda: {str(k): [v['time'].tolist(), {str(s): c.tolist() for s, c in v['ck'].items()}]
                        for k, v in mh.msm.ck_test(trajs, [lag], 3 * lag + 1).items()},
+        'ck_far': ck_far,
         'coring': lambda: mh.md.dynamical_coring(trajs, tau).trajs,
         'coring_obj': lambda: mh.md.dynamical_coring(obj, tau).trajs,
         'wt': lambda: mh.md.estimate_waiting_times(trajs, S, F),
